@@ -79,11 +79,13 @@ class C13(P.Property):
                     for k in range(n):
                         for when in ("before", "after"):
                             plans.append(self.base_plan(scheme, buf, [{"role": role, "when": when, "k": k}]))
-        # the reference workflow once more with create-service done through the command layer (service name, alias file)
+        # the reference workflow once more with create-service done through the command layer (service name, alias file) and a
+        # redundant generate-key after encrypt-database
         key = ("CJJ14.PiBas", 8192, "named")
         if key not in self._baseline:
             p0 = self.base_plan("CJJ14.PiBas", 8192, [])
             p0["knobs"]["named_create"] = True
+            p0["knobs"]["redo"] = True
             res = self.execute(p0)
             self._baseline[key] = {} if res.violations else dict(res.extra["role_k"])
             if res.violations:
@@ -92,6 +94,7 @@ class C13(P.Property):
             for when in ("before", "after"):
                 p1 = self.base_plan("CJJ14.PiBas", 8192, [{"role": "client", "when": when, "k": k}])
                 p1["knobs"]["named_create"] = True
+                p1["knobs"]["redo"] = True
                 plans.append(p1)
         if tier == "thorough":
             # the single-crash enumeration for the other six schemes as well (default buffer size)
@@ -170,6 +173,7 @@ class C13(P.Property):
         pl = self.base_plan(scheme, buf, crashes, seed=seed, net=rng.choice([dict(lo=0.001, hi=0.05), dict(lo=0.001, hi=0.05, seg=3), dict(lo=0.01, hi=0.3, seg=2)]),
                               skew=rng.choice([1.0, 1.0, 0.5, 2.0]), db=db)
         pl["knobs"]["named_create"] = named
+        pl["knobs"]["redo"] = rng.random() < 0.3
         return pl
 
     # ------------------------------------------------------------------ execution
@@ -227,6 +231,7 @@ class C13(P.Property):
         sid = None
         srv_state = 0  # highest server state known to be acknowledged / reported
         done = False
+        redo_done = [False]
         loop = asyncio.get_event_loop()
         last_crash_t = 0.0
 
@@ -331,6 +336,11 @@ class C13(P.Property):
                 opname, coro = "gen_key", host.gen_key(sid)
             elif not flags["de"] and srv_state < 2:
                 opname, coro = "encrypt", host.encrypt(sid, copy.deepcopy(db))
+            elif knobs.get("redo") and not redo_done[0] and srv_state == 0:
+                # the user runs generate-key once more although it is done: refused today (and then nothing is written); if a
+                # version accepts it, whatever it writes is a set of crash points like any other
+                redo_done[0] = True
+                opname, coro = "redo_gen_key", host.gen_key(sid)
             elif srv_state == 0:
                 opname, coro = "upload_config", host.upload_config(sid)
             elif srv_state == 1:
@@ -367,6 +377,8 @@ class C13(P.Property):
                         return
                     done = True
                     break
+            elif opname == "redo_gen_key":
+                pass  # a refusal of the redundant step is the expected answer
             elif not crashed_during and opname == "encrypt" and self._scheme_refuses(L, cfg0, db, r[1]):
                 out["inconclusive"] = f"scheme {scheme} itself refuses the database ({type(r[1]).__name__}): not a crash-consistency question"
                 note_crash_probes()
@@ -471,7 +483,7 @@ class C13(P.Property):
     # ------------------------------------------------------------------ minimisation
     def simplifications(self, plan):
         k = plan["knobs"]
-        for key, val in (("skew", 1.0), ("net", dict(lo=0.001, hi=0.02)), ("db", REF_DB), ("named_create", False)):
+        for key, val in (("skew", 1.0), ("net", dict(lo=0.001, hi=0.02)), ("db", REF_DB), ("named_create", False), ("redo", False)):
             if k.get(key) != val:
                 yield dict(plan, knobs=dict(k, **{key: val}))
         if k["scheme"] != "CJJ14.PiBas":
